@@ -13,10 +13,18 @@ Hypotheses of the block-processor theorems, all of them about parameters:
   * `CodecOk P.codec` — the block codec's contract (what it compressed it uncompresses; a compressed block is shorter);
     without the round trip the *implementation* is schedule dependent: a fragment is compared against the
     in-flight copy of a fragment block or against the block re-read from disk, depending on the timing;
-  * the checksum `P.h` is arbitrary; the files carry arbitrary flag words and contents of any size.
+  * the checksum `P.h` is arbitrary; the files carry arbitrary flag words and contents of any size;
+  * **the worker function is pure**: `P.codec.cmp : Bytes → Option Bytes` is a *function of the block*.  In the C code it is
+    `do_block` of a compressor object (one `sqfs_copy` per worker thread) that lives as long as the processor; if its result
+    depended on what the object compressed before, the image would depend on which worker got which block, i.e. on the
+    schedule (`stateful_worker_schedule_dependent`).  The hypothesis is stated as `StatefulCodec.HistoryIndependent`
+    (Sqfs/Model/C02Worker.lean); under it a pool whose workers carry state is the pure pool (`stateful_pool_is_pure`,
+    `schedule_independent_stateful`).  For zlib / liblzma / liblz4 / libzstd it is part of the trusted base and is observed
+    on every run by harness/h_c02_comp.c (monitor `obsIndependent`).
 -/
 import Sqfs.Proofs.BPFinal
 import Sqfs.Proofs.BPSpecPack
+import Sqfs.Proofs.C02Worker
 import Sqfs.Props.C09
 import Sqfs.Model.BuildEnv
 namespace Sqfs.C02
@@ -168,6 +176,65 @@ theorem jobs_independent (P : Params) (hc : CodecOk P.codec) (hB0 : 0 < P.B) (hB
     (files : List InFile) :
     run { P with ans := behAns beh₁ } mb₁ files = run { P with ans := behAns beh₂ } mb₂ files := by
   rw [(schedule_independent P hc hB0 hB n₁ beh₁ h₁ mb₁ files).2, (schedule_independent P hc hB0 hB n₂ beh₂ h₂ mb₂ files).2]
+
+
+/-! ### per-worker compressor state: the purity of the worker function as an explicit hypothesis -/
+
+/-- **`stateful_pool_is_pure`.**  Workers that carry private compressor state (`StatefulCodec σ`: every worker owns a copy,
+`do_block` may change it), *any* assignment `asg` of submitted items to workers (the schedule's choice) and any initial
+states: if `do_block` is history independent, the worked items the pool hands back are `processBlock` with the pure codec
+applied to each item — exactly what `Model/BlockProc.lean` stores in the pool's table. -/
+theorem stateful_pool_is_pure {σ : Type} (P : Params) (c : StatefulCodec σ) (hi : c.HistoryIndependent) (asg : Nat → Nat)
+    (st : Nat → σ) (id : Nat) (items : List Blk) :
+    workItems P c asg st id items = items.map (processBlock { P with codec := c.pure }) :=
+  workItems_pure P c hi asg items st id
+
+/-- **`schedule_independent_stateful`.**  `schedule_independent` with the hypothesis spelled out: a compressor object with
+private state whose `do_block` is history independent (and whose pure form meets the codec contract), any number of
+workers, any assignment of blocks to workers, any schedule of the pool, any backlog — the worked items are the pure
+pool's and the run is the reference's. -/
+theorem schedule_independent_stateful {σ : Type} (P : Params) (c : StatefulCodec σ) (hi : c.HistoryIndependent)
+    (hc : CodecOk c.pure) (hB0 : 0 < P.B) (hB : P.B < 2 ^ 24) (n : Nat) (beh : List Pool.Op → Pool.Ret)
+    (h : RealisedBy n beh) (mb : Nat) (files : List InFile) :
+    (∀ (asg : Nat → Nat) (st : Nat → σ) (id : Nat) (items : List Blk),
+        workItems P c asg st id items = items.map (processBlock { P with codec := c.pure })) ∧
+    run { P with codec := c.pure, ans := behAns beh } mb files = runEager (serial { P with codec := c.pure }) files :=
+  ⟨fun asg st id items => stateful_pool_is_pure P c hi asg st id items,
+   (schedule_independent { P with codec := c.pure } hc hB0 hB n beh h mb files).2⟩
+
+/-- a compressor whose object remembers a "strategy": a block of 4 bytes or more sets it to 1 and is stored as
+`[first byte, length]`; a shorter block is compressed *with whatever strategy the object was left with* (the shape of
+the seeded defect C02-a2 in gzip.c: `deflateReset` does not reset the strategy) -/
+def leakyCodec : StatefulCodec Nat :=
+  { init := 0
+    doBlock := fun s x => if x.length ≥ 4 then (1, some [x.headD 0, 4]) else (s, some [UInt8.ofNat s])
+    unc := fun z => some z }
+
+def leakyP : Params := { B := 4, codec := leakyCodec.pure, h := fun _ => 0 }
+
+/-- the items the front end submits for one `DONT_FRAGMENT` file of 6 bytes with block size 4: a full block, a short last block -/
+def leakyItems : List Blk :=
+  [{ flags := Consts.blkDontFragment ||| Consts.blkFirstBlock, data := [5, 5, 5, 5], inode := some 0, index := 0 },
+   { flags := Consts.blkDontFragment ||| Consts.blkLastBlock, data := [6, 7], inode := some 0, index := 1 }]
+
+/-- the data area the block writer produces for worked items (all of them data blocks) -/
+def imageOf (P : Params) (worked : List Blk) : Option (List UInt8) :=
+  (wRun { wr := Sqfs.BlockWriter.init P.pre } worked).toOption.map (·.wr.file)
+
+/-- **`stateful_worker_schedule_dependent`.**  Without history independence the image depends on the schedule: the leaky
+compressor, two workers, the same two blocks — when worker 0 compresses both (what the serial pool does) the short block
+is stored as `[1]`, when worker 1 takes the short block it is stored as `[0]`; the data areas differ.  (And the leaky
+compressor is indeed not history independent.) -/
+theorem stateful_worker_schedule_dependent :
+    leakyItems = (feFiles 4 0 [⟨Consts.blkDontFragment, [5, 5, 5, 5, 6, 7]⟩]).toOption.getD [] ∧
+    imageOf leakyP (workItems leakyP leakyCodec (fun _ => 0) (fun _ => 0) 0 leakyItems) = some [5, 4, 1] ∧
+    imageOf leakyP (workItems leakyP leakyCodec (fun t => t) (fun _ => 0) 0 leakyItems) = some [5, 4, 0] ∧
+    ¬ leakyCodec.HistoryIndependent := by
+  refine ⟨by decide +kernel, by decide +kernel, by decide +kernel, ?_⟩
+  intro h
+  have := h 1 [6, 7]
+  revert this
+  decide
 
 /-! ### environment -/
 
